@@ -440,7 +440,7 @@ impl<'a> G<'a> {
                 op(code, s, d, c)
             }
             Convert => {
-                let src = self.of_kind(lo, hi, &[K::ArcP, K::OffP, K::ErasedP, K::Sl, K::SlE, K::UniP, K::UniHs, K::UniSl, K::UniMuP, K::UniSlMu, K::UniFat]);
+                let src = self.of_kind(lo, hi, &[K::ArcP, K::OffP, K::ErasedP, K::Sl, K::SlE, K::UniP, K::UniHs, K::UniSl, K::UniMuP, K::UniSlMu, K::UniFat, K::UniDynP]);
                 let s = self.pick(&src)?;
                 let sh = self.slots[s].unwrap();
                 let (code, kind) = match sh.kind {
@@ -449,7 +449,14 @@ impl<'a> G<'a> {
                     K::ErasedP => (OpCode::Unerase, K::ArcP),
                     K::Sl => (OpCode::Erase, K::SlE),
                     K::SlE => (OpCode::Unerase, K::Sl),
-                    K::UniP => (OpCode::Shareable, K::ArcP),
+                    K::UniP => {
+                        if self.cfg_a && self.rng.pct(35) {
+                            (OpCode::UnsizeDyn, K::UniDynP)
+                        } else {
+                            (OpCode::Shareable, K::ArcP)
+                        }
+                    }
+                    K::UniDynP => (OpCode::Shareable, K::DynP),
                     K::UniHs => (OpCode::Shareable, K::Hs),
                     K::UniSl => (OpCode::Shareable, K::Sl),
                     K::UniMuP => (OpCode::Shareable, K::MuP),
@@ -560,6 +567,16 @@ impl<'a> G<'a> {
                         op(OpCode::SwapWrap, s, 0, 0)
                     }
                     k => {
+                        if self.rng.pct(30) {
+                            let want = if k == K::SwapP { K::ArcP } else { K::Thin };
+                            let others = self.of_kind(lo, hi, &[want]);
+                            if let Some(o) = self.pick(&others) {
+                                let so = self.slots[o].unwrap();
+                                self.set(s, k, so.alloc);
+                                self.set(o, want, sh.alloc);
+                                return op(OpCode::SwapExchange, s, o, self.rng.below(2));
+                            }
+                        }
                         if self.rng.pct(50) {
                             let e = self.empty(lo, hi);
                             let d = self.pick(&e)?;
@@ -784,9 +801,19 @@ pub fn generate(prof: &Profile, seed: u64, cfg_a: bool) -> Program {
     let pct_depth = *rng.pick(&[0u32, 0, 0, 1, 2, 3]);
     let fault = if prof.fault_pct > 0 && rng.pct(prof.fault_pct) {
         let cb = *rng.pick(&[Cb::IterNext, Cb::IterLen, Cb::IterHint, Cb::Clone, Cb::Cmp, Cb::Hash, Cb::Fmt, Cb::Closure, Cb::Clone, Cb::Closure, Cb::Drop, Cb::Drop]);
-        Some((cb, 1 + rng.below(6) as u32))
+        let mut v = vec![(cb, 1 + rng.below(6) as u32)];
+        // sometimes a second fault later in the same run: the state left by the first unwinding
+        // has to survive another one
+        if rng.pct(30) {
+            let cb2 = *rng.pick(&[Cb::IterNext, Cb::Clone, Cb::Cmp, Cb::Closure, Cb::Drop, Cb::Fmt]);
+            let k2 = 1 + rng.below(8) as u32;
+            if !(cb2 == cb && k2 == v[0].1) {
+                v.push((cb2, k2));
+            }
+        }
+        v
     } else {
-        None
+        Vec::new()
     };
     let total_slots = 4 * NS;
     let mut g = G {
